@@ -64,24 +64,24 @@ package method
 //@   ensures err == nil && result.Source != nil ==> result.Signature.Source == result.Source.String
 //@   ensures err == nil ==> result.Context != nil
 // loop: the processed prefix is classified
-//@   loop 1 invariant 0 <= i && i <= sig.Params().Len() && len(methodDef.RawArgs) == i
-//@   loop 1 invariant forall j int :: 0 <= j && j < i ==> methodDef.RawArgs[j].Name == PName(sig, j) && methodDef.RawArgs[j].Type != nil
-//@   loop 1 invariant forall j int :: 0 <= j && j < i ==> (IsIface(sig, opts, j) ==> methodDef.RawArgs[j].Use == ArgUseInterface)
-//@   loop 1 invariant forall j int :: 0 <= j && j < i ==> (IsTarget(sig, opts, j) ==> methodDef.RawArgs[j].Use == ArgUseTarget)
-//@   loop 1 invariant forall j int :: 0 <= j && j < i ==> (IsCtx(sig, opts, localOpts, j) ==> methodDef.RawArgs[j].Use == ArgUseContext)
-//@   loop 1 invariant forall j int :: 0 <= j && j < i ==> (Plain(sig, opts, localOpts, j) ==> methodDef.RawArgs[j].Use == ArgUseSource || methodDef.RawArgs[j].Use == ArgUseMultiSource)
-//@   loop 1 invariant (methodDef.Source == nil) == (forall j int :: 0 <= j && j < i ==> !Plain(sig, opts, localOpts, j))
-//@   loop 1 invariant forall j int :: 0 <= j && j < i && methodDef.RawArgs[j].Use == ArgUseMultiSource ==> len(methodDef.MultiSources) > 0
-//@   loop 1 invariant forall j int, k int :: 0 <= k && k < j && j < i && Plain(sig, opts, localOpts, j) && Plain(sig, opts, localOpts, k) ==> len(methodDef.MultiSources) > 0
-//@   loop 1 invariant methodDef.UpdateTarget == (exists j int :: 0 <= j && j < i && IsTarget(sig, opts, j))
-//@   loop 1 invariant methodDef.UpdateTarget ==> methodDef.Target != nil && sig.Results().Len() <= 1 && methodDef.ReturnError == (sig.Results().Len() == 1) && (methodDef.ReturnError ==> isError(sig.Results().At(0)))
-//@   loop 1 invariant methodDef.UpdateTarget ==> (exists j int :: 0 <= j && j < i && methodDef.RawArgs[j].Use == ArgUseTarget)
-//@   loop 1 invariant !methodDef.UpdateTarget ==> !methodDef.ReturnError
-//@   loop 1 invariant methodDef.Source != nil ==> methodDef.Signature.Source == methodDef.Source.String
-//@   loop 1 invariant methodDef.Name == obj.Name() && methodDef.Generated == opts.Generated && methodDef.CustomCall == opts.CustomCall
-//@   loop 1 invariant methodDef.Context != nil && isFresh(methodDef.Context)
-//@   loop 1 invariant methodDef.TypeParams == (sig.TypeParams().Len() > 0)
-//@   loop 1 decreases sig.Params().Len() - i
+//@   loop 2 invariant 0 <= i && i <= sig.Params().Len() && len(methodDef.RawArgs) == i
+//@   loop 2 invariant forall j int :: 0 <= j && j < i ==> methodDef.RawArgs[j].Name == PName(sig, j) && methodDef.RawArgs[j].Type != nil
+//@   loop 2 invariant forall j int :: 0 <= j && j < i ==> (IsIface(sig, opts, j) ==> methodDef.RawArgs[j].Use == ArgUseInterface)
+//@   loop 2 invariant forall j int :: 0 <= j && j < i ==> (IsTarget(sig, opts, j) ==> methodDef.RawArgs[j].Use == ArgUseTarget)
+//@   loop 2 invariant forall j int :: 0 <= j && j < i ==> (IsCtx(sig, opts, localOpts, j) ==> methodDef.RawArgs[j].Use == ArgUseContext)
+//@   loop 2 invariant forall j int :: 0 <= j && j < i ==> (Plain(sig, opts, localOpts, j) ==> methodDef.RawArgs[j].Use == ArgUseSource || methodDef.RawArgs[j].Use == ArgUseMultiSource)
+//@   loop 2 invariant (methodDef.Source == nil) == (forall j int :: 0 <= j && j < i ==> !Plain(sig, opts, localOpts, j))
+//@   loop 2 invariant forall j int :: 0 <= j && j < i && methodDef.RawArgs[j].Use == ArgUseMultiSource ==> len(methodDef.MultiSources) > 0
+//@   loop 2 invariant forall j int, k int :: 0 <= k && k < j && j < i && Plain(sig, opts, localOpts, j) && Plain(sig, opts, localOpts, k) ==> len(methodDef.MultiSources) > 0
+//@   loop 2 invariant methodDef.UpdateTarget == (exists j int :: 0 <= j && j < i && IsTarget(sig, opts, j))
+//@   loop 2 invariant methodDef.UpdateTarget ==> methodDef.Target != nil && sig.Results().Len() <= 1 && methodDef.ReturnError == (sig.Results().Len() == 1) && (methodDef.ReturnError ==> isError(sig.Results().At(0)))
+//@   loop 2 invariant methodDef.UpdateTarget ==> (exists j int :: 0 <= j && j < i && methodDef.RawArgs[j].Use == ArgUseTarget)
+//@   loop 2 invariant !methodDef.UpdateTarget ==> !methodDef.ReturnError
+//@   loop 2 invariant methodDef.Source != nil ==> methodDef.Signature.Source == methodDef.Source.String
+//@   loop 2 invariant methodDef.Name == obj.Name() && methodDef.Generated == opts.Generated && methodDef.CustomCall == opts.CustomCall
+//@   loop 2 invariant methodDef.Context != nil && isFresh(methodDef.Context)
+//@   loop 2 invariant methodDef.TypeParams == (sig.TypeParams().Len() > 0)
+//@   loop 2 decreases sig.Params().Len() - i
 
 // ---- C09 ----
 //@ func Index.GetAll(l; )
